@@ -2,7 +2,7 @@
 import ast
 
 from ..model import AnchorError, call_name, const_str, dotted, src
-from ..rules import FuncView, suffix_match
+from ..rules import FuncView, suffix_match, truth_formula, formula_equiv, path_condition, peval
 
 EXPLANATION = (
     "Sibling agreement (T7) across Timer, MonoTimer and StoreTimer with the clock expression abstracted "
@@ -43,18 +43,9 @@ def check(ctx):
                   "backward clock)")
         gx = C.own_method("getExpired")
         V = FuncView(ctx, gx)
-        want = ("%s >= self.stop" % clock).replace("(", "").replace(")", "")
-        t = V.tests(lambda t: want in src(t).replace("(", "").replace(")", ""))
-        rets = [n for n in V.cfg.nodes if n.kind == "return"]
-        ok = bool(t) and len(rets) == 2
-        if ok:
-            test_src = src(t[0].ast.test).replace("(", "").replace(")", "")
-            extra = test_src.replace(want, "").replace(" and ", "").strip()
-            allowed_extra = "self.store.stamp is not None" if cn == "StoreTimer" else ""
-            ok = extra in ("", allowed_extra)
-            for r_ in rets:
-                v = isinstance(r_.ast.value, ast.Constant) and r_.ast.value.value
-                ok = ok and (V.dominated_by_edge([r_], t[0], "T") == (v is True))
+        want = "%s >= self.stop" % clock
+        tf = truth_formula(V)
+        ok = formula_equiv(tf, want) or (cn == "StoreTimer" and formula_equiv(tf, "self.store.stamp is not None and " + want))
         ctx.check(ok, "T7-clock", gx, "%s.expired iff %s" % (cn, want), "expired exactly when the clock has reached the stop")
         if cn == "MonoTimer":
             for m in (ge, gr, gx):
@@ -65,19 +56,27 @@ def check(ctx):
                           "a monotonic timer must observe (and compensate) the clock before reporting")
         rs = C.own_method("restart")
         R = FuncView(ctx, rs)
-        asg = [(src(n.ast.targets[0]), src(n.ast.value), n) for n in R.cfg.nodes if isinstance(n.ast, ast.Assign)]
-        d = {}
-        for k, v, n in asg:
-            d.setdefault(k, []).append(v)
         clock = CLOCKS[cn]
-        ok = ("abs(start)" in d.get("self.start", []) or
-              any(v.replace(" ", "") == ("%s if start is None else abs(start)" % clock).replace(" ", "") for v in d.get("self.start", []))) and \
-            ("abs(duration)" in d.get("self.duration", []) or
-             any(v == "self.duration if duration is None else abs(duration)" for v in d.get("self.duration", []))) and \
-            d.get("self.stop") == ["self.start + self.duration"]
-        stopn = [n for k, v, n in asg if k == "self.stop"]
-        others = [n for k, v, n in asg if k in ("self.start", "self.duration")]
-        ok = ok and bool(stopn) and all(stopn[0].id in R.cfg.reachable(o.id) for o in others)
+        ok, seen = True, []
+        for sv_, dv_ in ((None, None), (5.0, None), (None, 2.0), (5.0, 2.0)):
+            outs = peval(R, {"start": sv_, "duration": dv_}, effects=True)
+            ok = ok and bool(outs)
+            for k_, e_, h_, eff in outs:
+                if k_ == "raise":
+                    continue
+                st = [x.split(" = ", 1) for x in eff if " = " in x and x.startswith(("self.start ", "self.stop ", "self.duration "))]
+                seen.append(st)
+                d = {}
+                for k2, v2 in st:
+                    d.setdefault(k2, []).append(v2.replace(" ", ""))
+                w_start = clock.replace(" ", "") if sv_ is None else "abs(5.0)"
+                w_dur = None if dv_ is None else "abs(2.0)"
+                ok = ok and d.get("self.start") == [w_start]
+                ok = ok and (d.get("self.duration") in (None, ["self.duration"]) if w_dur is None else d.get("self.duration") == [w_dur])
+                lhs = {"self.start", w_start}
+                rhs = {"self.duration"} | ({w_dur} if w_dur else set())
+                ok = ok and len(d.get("self.stop", [])) == 1 and d["self.stop"][0] in {a_ + "+" + b_ for a_ in lhs for b_ in rhs}
+                ok = ok and bool(st) and st[-1][0] == "self.stop"
         ctx.check(ok, "T9-restart", rs, "%s.restart: start = abs(start)|clock, duration = abs(duration), stop = start + duration (last)" % cn,
                   "stop must always be start + duration")
         rp = C.own_method("repeat")
@@ -90,18 +89,28 @@ def check(ctx):
                   "duration = self.duration + extension" in src(ex), "T9-restart", ex, "%s.extend keeps start, adds to duration" % cn, "extend keeps the start")
     up = ctx.cls("aid.timing", "MonoTimer").own_method("update")
     U = FuncView(ctx, up)
-    t = U.tests(lambda t: src(t) == "delta < 0")
-    rt = U.tests(lambda t: src(t) == "not self.retro")
+    D = "time.time() - self.latest"
+    entry = [U.cfg.entry.id]
     raises = [n for n in U.cfg.nodes if n.kind == "raise"]
-    sh = {src(n.ast.targets[0]): src(n.ast.value) for n in U.cfg.nodes if isinstance(n.ast, ast.Assign)}
-    aug = [n for n in U.cfg.nodes if isinstance(n.ast, ast.AugAssign) and src(n.ast.target) == "self.latest" and src(n.ast.value) == "delta"]
-    ok = bool(t) and bool(rt) and any(U.dominated_by_edge([r], rt[0], "T") and U.dominated_by_edge([r], t[0], "T") for r in raises)
-    ok = ok and sh.get("self.start") == "self.start + delta" and sh.get("self.stop") == "self.stop + delta" and \
-        sh.get("delta", "").replace(" ", "") == "time.time()-self.latest"
-    shifts = [n for n in U.cfg.nodes if isinstance(n.ast, ast.Assign) and src(n.ast.targets[0]) in ("self.start", "self.stop")]
-    ok = ok and all(U.dominated_by_edge([s], t[0], "T") for s in shifts) and bool(aug) and U.always_then([U.cfg.entry], aug, skip_exc=True)
-    # the compensation is unconditional once the clock went backwards on a retro timer: no further condition on the shifts
-    allowed = {"delta < 0", "0 > delta", "self.retro"}
-    ok = ok and all(U.facts(s) <= allowed for s in shifts)
+
+    def shift_of(n, attr):
+        a_ = n.ast
+        if isinstance(a_, ast.AugAssign) and isinstance(a_.op, ast.Add) and src(a_.target) == attr:
+            return src(U.sym(a_.value, n))
+        if isinstance(a_, ast.Assign) and src(a_.targets[0]) == attr and isinstance(a_.value, ast.BinOp) and isinstance(a_.value.op, ast.Add):
+            l, r = src(U.sym(a_.value.left, n)), src(U.sym(a_.value.right, n))
+            return r if l == attr else l if r == attr else None
+        return None
+    ok = bool(raises) and formula_equiv(("or", [path_condition(U, r, start=entry) for r in raises]), "%s < 0 and not self.retro" % D)
+    for attr in ("self.start", "self.stop"):
+        sh = [n for n in U.cfg.nodes if isinstance(n.ast, (ast.Assign, ast.AugAssign)) and
+              src(n.ast.target if isinstance(n.ast, ast.AugAssign) else n.ast.targets[0]) == attr]
+        ok = ok and len(sh) == 1 and shift_of(sh[0], attr) == D and \
+            formula_equiv(path_condition(U, sh[0], start=entry), "%s < 0 and self.retro" % D)
+    lat = [n for n in U.cfg.nodes if isinstance(n.ast, (ast.Assign, ast.AugAssign)) and
+           src(n.ast.target if isinstance(n.ast, ast.AugAssign) else n.ast.targets[0]) == "self.latest"]
+    ok = ok and len(lat) == 1 and (shift_of(lat[0], "self.latest") == D or
+                                   (isinstance(lat[0].ast, ast.Assign) and src(U.sym(lat[0].ast.value, lat[0])) == "time.time()"))
+    ok = ok and formula_equiv(path_condition(U, lat[0], start=entry), "not (%s < 0 and not self.retro)" % D)
     ctx.check(ok, "T1-retro", up, "update: delta < 0 => raise iff not retro, else shift start and stop by delta; latest += delta",
               "a backward clock jump must shift both ends of the timer (so elapsed never decreases) or raise without compensation")
